@@ -404,6 +404,9 @@ Frozen == [][pl.locked => (pl'.locked /\ pl'.ctor = pl.ctor /\ pl'.hook = pl.hoo
 Inv == TypeOK /\ OnceAtMostOnce /\ NoLiveInPool
 ActionProps == OnceStable /\ CleanMonotone /\ Frozen
 
+\* state constraint of the edge-cover configs: the clean counters are the only unbounded part of the abstract state
+Bound == \A i \in Idx : ob[i].cl <= 2
+
 (* ------------------------------------------------------- behaviour emission *)
 EmitAll  == Len(hist) < Depth + 1 \/ PrintT(<<"BEH", ToJson(hist)>>)
 EmitEdge == PrintT(<<"BEH", ToJson(hist')>>)
